@@ -249,7 +249,7 @@ fn main() {
     }
     let rep = Reporter::new("C12", "fault_enumeration", &args);
     let thorough = args.tier == Tier::Thorough;
-    let max_len = if thorough { 7 } else { 6 };
+    let max_len = if thorough { 9 } else { 7 };
     let mut workloads: Vec<Vec<char>> = Vec::new();
     let mut cur: Vec<Vec<char>> = vec![vec![]];
     for _ in 0..max_len {
@@ -275,7 +275,7 @@ fn main() {
         for s in &singles {
             cases.push(Case { workload: w.clone(), faults: vec![*s] });
         }
-        if thorough && w.len() <= 6 {
+        if w.len() <= if thorough { 7 } else { 5 } {
             for (a, s1) in singles.iter().enumerate() {
                 for s2 in &singles[a + 1..] {
                     if s2.0 > s1.0 {
@@ -303,7 +303,7 @@ fn main() {
     let coverage = json!({
         "evaluations": cases.len() as u64 + wb,
         "distinct_nontrivial": distinct.lock().unwrap().len(),
-        "rule": "workload = every sequence of <=5 (thorough 6) operations over {push a fresh update, flush, compact} containing a push and a flush; fault plan = none, every single store-call index x {transient failure; for puts also truncated object + error} (thorough: all ordered pairs for workloads of <=5 ops); each case runs the real StreamingPersistence/Compactor to the end with the process staying up; then EVERY prefix of the store-operation log (plus the torn-put variant of each successful put) is recovered with the real RecoveryManager; distinct_nontrivial = distinct store-operation histories",
+        "rule": "workload = every sequence of <=7 (thorough 9) operations over {push a fresh update, flush, compact} containing a push and a flush; fault plan = none, every single store-call index x {transient failure; for puts also truncated object + error} plus all ordered pairs of faults for workloads of <=5 (thorough 7) ops; each case runs the real StreamingPersistence/Compactor to the end with the process staying up; then EVERY prefix of the store-operation log (plus the torn-put variant of each successful put) is recovered with the real RecoveryManager; distinct_nontrivial = distinct store-operation histories",
         "workloads": workloads.len(),
         "cases": cases.len(),
         "cases_in_which_a_fault_fired": faults_hit.load(Ordering::Relaxed),
